@@ -9,6 +9,8 @@ there.  The hook below loads the *current* source of the package under test and 
     binascii.hexlify(x)    -> __vhexlify__(x)
     binascii.unhexlify(x)  -> __vunhexlify__(x)
     bytes(x), bytearray(x) -> __vbytes__(x)
+    X.join(parts)          -> __vjoin__(X, parts)
+    bin(x)                 -> __vbin__(x)          (only len(bin(x)) is defined on a proxy)
 
 into calls of helpers which behave exactly like the originals on concrete values and build the exact term on proxies.
 Everything else - every branch, slice, comparison, length computation - is the real code."""
@@ -286,6 +288,24 @@ def v_bytes(cls):
     return f
 
 
+class BinText:
+    """bin(proxy): only its length is defined (the idiom len(bin(x)) - 2 for the bit length)"""
+
+    def __init__(self, n):
+        self.n = n
+
+    def __len__(self):
+        return 2 + max(self.n.bit_length(), 1)
+
+
+def v_bin(x):
+    if _is_sym(x):
+        if x.lo < 0 and (x < 0):
+            raise bv.Inconclusive("bin() of a negative proxy")
+        return BinText(x)
+    return bin(_conc(x))
+
+
 def v_join(sep, parts):
     if isinstance(sep, (bytes, bytearray)):
         parts = list(parts)
@@ -326,6 +346,8 @@ class Rewriter(ast.NodeTransformer):
         f = node.func
         if isinstance(f, ast.Name) and f.id == "int" and len(node.args) == 2 and not node.keywords:
             node.func = ast.copy_location(ast.Name("__vint__", ast.Load()), f)
+        elif isinstance(f, ast.Name) and f.id == "bin" and len(node.args) == 1 and not node.keywords:
+            node.func = ast.copy_location(ast.Name("__vbin__", ast.Load()), f)
         elif isinstance(f, ast.Name) and f.id in ("bytes", "bytearray") and len(node.args) == 1 and not node.keywords:
             node.func = ast.copy_location(ast.Name("__v%s__" % f.id, ast.Load()), f)
         elif isinstance(f, ast.Attribute) and f.attr == "join" and len(node.args) == 1 and not node.keywords:
@@ -371,6 +393,7 @@ def install(root_dir, want):
     builtins.__vbytes__ = v_bytes(bytes)
     builtins.__vbytearray__ = v_bytes(bytearray)
     builtins.__vjoin__ = v_join
+    builtins.__vbin__ = v_bin
     for m in list(sys.modules):
         if want(m):
             del sys.modules[m]
